@@ -11,7 +11,8 @@
    theorems carry the hypothesis that excludes exactly the defect. *)
 From Coq Require Import List NArith Bool String.
 From FIM Require Import Base.Str Gen.T9Names Model.T9Graph Model.T9Ops Model.T9Check
-     Proofs.T9Monad Proofs.T9Simple Proofs.T9Ext Proofs.T9Connect Proofs.T9Refuted Proofs.T9Atomic.
+     Proofs.T9Monad Proofs.T9Simple Proofs.T9Ext Proofs.T9Connect Proofs.T9Refuted Proofs.T9Atomic
+     Proofs.T9Component.
 Import ListNotations.
 Open Scope N_scope.
 
@@ -103,6 +104,26 @@ Theorem C09_add_component_atomic_refuted :
     wf_graph g = true /\ op_add_component fl pn name nid a b c cat pure (mkSt g fresh) = (s', Err e) /\ sg s' <> g.
 Proof. exact add_component_atomic_refuted. Qed.
 Print Assumptions C09_add_component_atomic_refuted.
+
+(* ... atomic for every failure that is not a PropertyGraphQueryException: duplicate component name, unknown
+   component model (CatalogException), invalid property among valid ones, missing model or ids, wrong number
+   of ids (RuntimeError) - for every state and every argument *)
+Theorem C09_add_component_atomic_partial :
+  forall fl pn name node_id spec_given nic sub_ids cat pure s s' e,
+  op_add_component fl pn name node_id spec_given nic sub_ids cat pure s = (s', Err e) ->
+  e <> EQuery -> sg s' = sg s.
+Proof. exact add_component_atomic_nonquery. Qed.
+Print Assumptions C09_add_component_atomic_partial.
+Example C09_add_component_unknown_model_ex :
+  let r := op_add_component Experiment 1 (S "x1") None true true false (Err ECatalog) None (mkSt g_two_nodes supply) in
+  snd r = Err ECatalog /\ sg (fst r) = g_two_nodes.
+Proof. exact ex_component_unknown_model. Qed.
+Example C09_add_component_ok_ex :
+  let r := op_add_component Experiment 1 (S "nic2") None true false false
+             (Ok (mkCompSpec tNIC (Some (mkChildNs (S "n1-nic2-l2ovs") tOVS None [mkChildIf (S "nic2-p1") tSharedPort None]))))
+             None (mkSt g_two_nodes supply) in
+  snd r = Ok 50 /\ List.length (gnodes (sg (fst r))) = 12%nat.
+Proof. exact ex_component_ok. Qed.
 
 (* ---- Topology.add_facility: node, service, ports in three steps without rollback *)
 Theorem C09_add_facility_atomic_refuted :
